@@ -89,6 +89,30 @@ walk_no_nested = _walk_no_nested
 
 CATCH_ALL = {"Exception", "BaseException"}
 
+PY = (3, 12)
+
+
+def static_truth(test):
+    """Truth value of interpreter-version tests (`sys.version_info < (3, 0)` ...) under Python 3; None otherwise.
+    The repo's Python-2 compatibility branches are dead code and are pruned from the CFG."""
+    if isinstance(test, ast.Compare) and len(test.ops) == 1 and ast.unparse(test.left) in ("sys.version_info", "sys.version_info[0]"):
+        try:
+            rhs = ast.literal_eval(test.comparators[0])
+        except Exception:
+            return None
+        lhs = PY if ast.unparse(test.left) == "sys.version_info" else PY[0]
+        if isinstance(rhs, tuple) != isinstance(lhs, tuple):
+            return None
+        op = type(test.ops[0])
+        try:
+            return {ast.Lt: lhs < rhs, ast.LtE: lhs <= rhs, ast.Gt: lhs > rhs, ast.GtE: lhs >= rhs, ast.Eq: lhs == rhs, ast.NotEq: lhs != rhs}.get(op)
+        except TypeError:
+            return None
+    if isinstance(test, ast.UnaryOp) and isinstance(test.op, ast.Not):
+        t = static_truth(test.operand)
+        return None if t is None else not t
+    return None
+
 
 class CFG:
     def __init__(self, fn, may_raise=default_may_raise):
@@ -151,6 +175,11 @@ class CFG:
             self._edge(n, ctx.cont, "normal")
             return n
         if isinstance(s, ast.If):
+            st = static_truth(s.test)
+            if st is True:
+                return self._block(s.body, nxt, ctx, tag)
+            if st is False:
+                return self._block(s.orelse, nxt, ctx, tag) if s.orelse else nxt
             t = self._new("test", s, tag=tag)
             self._edge(t, self._block(s.body, nxt, ctx, tag), "true")
             self._edge(t, self._block(s.orelse, nxt, ctx, tag) if s.orelse else nxt, "false")
